@@ -44,6 +44,13 @@ def cases(seed, tier):
                     out.append({"group": "held", "kind": "ivp32", "functional": "solve_ivp", "method": method, "holder": holder, "history": h,
                                 "seed": sub_seed(seed, "c19x", k)})
                     k += 1
+        # absolute retention with LARGE states: whatever stays alive after the results are dropped must be small compared with one state
+        for method in ("rk45", "rk23", "rk4", "euler"):
+            for dtn in ("float32", "float64"):
+                for h in ("fwd", "fwd_bwd", "fwd_bwdcg"):
+                    out.append({"group": "held", "kind": "bigstate", "functional": "solve_ivp", "method": method, "holder": dtn, "history": h,
+                                "seed": sub_seed(seed, "c19x", k)})
+                    k += 1
     return out
 
 
@@ -201,7 +208,47 @@ def make_call(desc):
     return call, (wrapped, obj), leaves
 
 
+def run_bigstate(desc):
+    from xitorch.integrate import solve_ivp
+    from vf.props.c19 import census
+    obs = Obs(desc)
+    dt = getattr(torch, desc["holder"])
+    n = 20000
+    tg = torch.Generator().manual_seed(desc["seed"])
+    a = (0.5 + torch.rand(n, generator=tg)).to(dt).requires_grad_()
+    y0 = torch.rand(n, generator=tg).to(dt).requires_grad_()
+    ts = torch.linspace(0, 0.5, 3, dtype=dt)
+    h = desc["history"]
+    mech = "bigstate:solve_ivp:%s:%s:%s" % (desc["method"], desc["holder"], h)
+
+    def call():
+        yt = solve_ivp(lambda t, y, a_: -a_ * y, ts, y0, params=(a,), method=desc["method"])
+        _consume([yt], [a, y0], h, tg)
+    gc.collect()
+    base = census()
+    try:
+        with WarnLog():
+            call()
+            call()
+    except Exception as e:
+        obs.skip("history does not complete on this configuration (%s: %s)" % (type(e).__name__, str(e)[:60]))
+        return obs.result()
+    gc.collect()       # (cycles are the main groups' subject: here only what is still REACHABLE counts)
+    after = census()
+    state_bytes = n * (4 if dt == torch.float32 else 8)
+    kept = after[1] - base[1]
+    obs.note(bytes_before=base[1], bytes_after=after[1], state_bytes=state_bytes)
+    obs.check(kept <= 0.25 * state_bytes, "retained_bytes:" + mech,
+              "after two calls whose results were dropped (and a full collection) %d bytes of tensor storage are still alive; one state has %d bytes" % (kept, state_bytes))
+    obs.count("bigstate_retention_checked")
+    obs.count("group_held")
+    obs.nontrivial = True
+    return obs.result()
+
+
 def run_case(desc):
+    if desc["kind"] == "bigstate":
+        return run_bigstate(desc)
     from vf.props.c19 import census, K
     obs = Obs(desc)
     mech = "%s:%s:%s:%s" % (desc["kind"], desc["functional"], desc.get("method") or desc.get("holder"), desc["history"])
